@@ -1,0 +1,8 @@
+//go:build verif
+
+// Contracts for package wctx, checked by /verif. Comments only.
+package wctx
+
+// C18: the per-step RPC counter is shared by the partition goroutines of a
+// load; CounterAdd updates it through sync/atomic only.
+//@ nostore CounterAdd props=C18
